@@ -109,14 +109,28 @@ class Lower(Rule):
             if kw == 'while':
                 ins.add(be + 1)
             else:
-                n = _skip_ws(m, be + 1)
-                if m.startswith('else', n):
+                # the rest of the if / else-if / else chain: its conditions are evaluated with the exception in flight, so they
+                # must be free of may-throw calls; every block of the chain starts with the check, and so does what follows it
+                while True:
+                    n = _skip_ws(m, be + 1)
+                    if not (m.startswith('else', n) and not (m[n + 4].isalnum() or m[n + 4] == '_')):
+                        ins.add(be + 1)
+                        break
                     n2 = _skip_ws(m, n + 4)
-                    if m[n2] != '{':
-                        raise ExtractionBreak('%s: else-if after an if whose condition may throw' % where)
-                    ins.add(n2 + 1)
-                else:
-                    ins.add(be + 1)
+                    if m[n2] == '{':
+                        ins.add(n2 + 1)
+                        break
+                    if not re.match(r'if\b', m[n2:]):
+                        raise ExtractionBreak('%s: malformed else' % where)
+                    cp = _skip_ws(m, n2 + 2)
+                    cpe = lex.match_close(m, cp)
+                    if re.search(r'\b(%s)\s*\(' % '|'.join(map(re.escape, self.maythrow)), m[cp:cpe]):
+                        raise ExtractionBreak('%s: may-throw call in a later condition of an if chain whose first condition may throw' % where)
+                    b2 = _skip_ws(m, cpe + 1)
+                    if m[b2] != '{':
+                        raise ExtractionBreak('%s: control statement without braces' % where)
+                    ins.add(b2 + 1)
+                    be = lex.match_close(m, b2)
         for p in sorted(ins, reverse=True):
             seg = seg[:p] + ' ' + action + seg[p:]
         return seg
@@ -573,7 +587,9 @@ def plan(ctx):
     us, cases = serialize_units(ctx, src)
     escape_units(ctx, src, us)
     us.write()
-    ctx.functions_under_contract = ua.functions + up.functions + us.functions
+    arms = parse_chain(src)[0]
+    uc = container_units(ctx, src, cases, arms)
+    ctx.functions_under_contract = ua.functions + up.functions + us.functions + uc.functions
     D = ['PROP_C01', 'PROP_C02']
     RP = lambda mode, **kw: Replay(driver='C04/json_roundtrip.cc', mode=mode, sources=ALL_LIB, **kw)
     HS = 'harness/C04/scalars.c'
@@ -610,6 +626,19 @@ def plan(ctx):
     groups.append(Group(name='JSON.string.roundtrip[len<=2]', harness=HT, entry='h_string_bounded', function='JSON::serialize case 4 -> JSON::parse string branch',
                         defines=D + ['C04_STRMAX=2'], kind='bounded', bound='strings of at most 2 bytes (every byte value, every option set); loops unwound 4 times',
                         cbmc_flags=['--unwind', '4', '--unwinding-assertions'], min_post=5, timeout=600, stage1=60, replay=RP('string_roundtrip')))
+    HC = 'harness/C04/containers.c'
+    AB = D + ['C04_EMIT_ABSTRACT=1']
+    groups.append(Group(name='JSON.serialize.list', harness=HC, entry='h_ser_list', function='JSON::serialize case 5 (list)', enforce='JSON_ser_list', loops=True,
+                        defines=AB + ['C04_DICT=0'], kind='loop-contract', min_post=5, timeout=300))
+    groups.append(Group(name='JSON.serialize.dict.add_key', harness=HC, entry='h_add_key', function='JSON::serialize case 6 (dict), lambda add_key',
+                        enforce='JSON_ser_dict_add_key', defines=AB + ['C04_DICT=1'], kind='loop-free', min_post=1, timeout=300))
+    groups.append(Group(name='JSON.serialize.dict', harness=HC, entry='h_ser_dict', function='JSON::serialize case 6 (dict)', enforce='JSON_ser_dict',
+                        replace=['JSON_ser_dict_add_key'], loops=True, defines=AB + ['C04_DICT=1'], kind='loop-contract', min_post=5, timeout=300))
+    for k, nm in ((0, 'list'), (1, 'dict')):
+        groups.append(Group(name='JSON.%s.roundtrip[n<=2]' % nm, harness=HC, entry='h_container_bounded', function='JSON::serialize case %d -> JSON::parse %s branch' % (5 + k, nm),
+                            defines=D + ['C04_DICT=%d' % k, 'C04_NMAX=2'], kind='bounded',
+                            bound='at most 2 elements, indent_level <= 1, keys of at most 1 byte, children abstracted to a one-byte value token; loops unwound 10 times',
+                            cbmc_flags=['--unwind', '10', '--unwinding-assertions'], min_post=6, timeout=900, stage1=60, replay=RP('%s_roundtrip' % nm)))
     return groups
 
 
@@ -620,3 +649,152 @@ DROPS = ''
 NOT_DECIDED = []
 CLAIMED = True
 MANIFEST = dict(category='proof', text='', note='', technique='')
+
+
+# ---------------------------------------------------------------------------------------------------------------------
+# containers: serializer arms as token emitters (stubs/C04_emit.h), parser branches with the recursive parse as a child stub
+# ---------------------------------------------------------------------------------------------------------------------
+def split_plus(expr):
+    """split at top-level '+' (outside parentheses and literals)"""
+    m = lex.mask(expr)
+    parts, depth, last = [], 0, 0
+    for i, c in enumerate(m):
+        if c in '([':
+            depth += 1
+        elif c in ')]':
+            depth -= 1
+        elif c == '+' and depth == 0 and (i + 1 >= len(m) or m[i + 1] not in '+=') and (i == 0 or m[i - 1] != '+'):
+            parts.append(expr[last:i].strip())
+            last = i + 1
+    parts.append(expr[last:].strip())
+    return parts
+
+
+class Concat(Rule):
+    """`ret += T1 + T2 + ...;` and `return ret + T1 + ...;`  ->  one emitter call per term, left to right (operator+ of std::string
+    evaluates and appends left to right).  Terms: 'c' | "lit" | string(n, 'c') | X->serialize(args) | X.serialize(args) | a local
+    std::string.  `char + literal` as the first two terms would be pointer arithmetic in C++: extraction break."""
+
+    def __init__(self, child):
+        self.child = child            # C expression naming the child in `o->serialize(..)` / `value.serialize(..)`
+        self.pat, self.count = 'string concatenation -> emitters', None
+
+    def term(self, t, where):
+        if re.fullmatch(r"'(?:\\.|[^'\\])'", t):
+            return 'C04_emit_char(ret, %s);' % t, False
+        if re.fullmatch(LIT, t):
+            return 'C04_emit_lit(ret, %s);' % t, False
+        mo = re.fullmatch(r"string\((.*), ('(?:\\.|[^'\\])')\)", t)
+        if mo:
+            return 'C04_emit_fill(ret, %s, %s);' % (mo.group(1), mo.group(2)), True
+        mo = re.fullmatch(r'(\w+)(?:->|\.)serialize\(([^()]*)\)', t)
+        if mo:
+            args = [a.strip() for a in mo.group(2).split(',')]
+            if len(args) == 1:
+                args.append('0')          # default argument indent_level = 0
+            if len(args) != 2:
+                raise ExtractionBreak('%s: serialize call with %d arguments' % (where, len(args)))
+            return 'C04_emit_child(ret, %s, %s, %s);' % (self.child, args[0], args[1]), True
+        if re.fullmatch(r'[A-Za-z_]\w*', t) and t != 'ret':
+            return 'C04_emit_str(ret, &%s);' % t, True
+        raise ExtractionBreak('%s: unsupported term %r in a string concatenation' % (where, t))
+
+    def seq(self, terms, where, lhs_is_string):
+        out, kinds = [], []
+        for t in terms:
+            c, is_str = self.term(t, where)
+            out.append(c)
+            kinds.append(is_str)
+        if not lhs_is_string and len(kinds) >= 2 and not (kinds[0] or kinds[1]):
+            raise ExtractionBreak('%s: the first two operands of + are not std::string (pointer arithmetic in C++)' % where)
+        return ' '.join(out)
+
+    def apply(self, text, where=''):
+        def app(mo):
+            return self.seq(split_plus(mo.group(1)), where, False)
+
+        def ret(mo):
+            return '{ ' + self.seq(split_plus(mo.group(1)), where, True) + ' return; }'
+        text = re.sub(r'\bret \+= ([^;]*);', app, text)
+        text = re.sub(r'\breturn ret \+ ([^;]*);', ret, text)
+        return text
+
+
+CONT_RULES = OPT_RULES + [
+    Rule(r'\bconst auto& (list|dict) = JSON_as_(?:list|dict)\(self\);', r'const size_t \1_n = JSON_as_\1_n(self); if (verif_exc) return;', regex=True, count=1),
+    Rule(r'\b(list|dict)\.empty\(\)', r'(\1_n == 0)', regex=True, count=1),
+    Rule(r'\breturn (' + LIT + r');', r'{ C04_emit_assign(ret, \1); return; }', regex=True, count=1),
+    Rule(r'\bstring ret = (' + LIT + r');', r'C04_emit_assign(ret, \1);', regex=True, count=1),
+    Rule(r'\bret\.size\(\)', 'vstr_size(ret)', regex=True)]
+LIST_LOOP = """
+__CPROVER_assigns(verif_i, ret->size, C04_EMIT_GHOSTS)
+__CPROVER_loop_invariant(C04_MEMBER_LOOP_INV(ret, verif_i, list_n))
+__CPROVER_decreases(list_n - verif_i)
+"""
+DICT_LOOP = LIST_LOOP.replace('list_n', 'VERIF_N')
+SORT_LOOP = """
+__CPROVER_assigns(verif_i, sorted_n)
+__CPROVER_loop_invariant(verif_i <= dict_n && sorted_n == verif_i)
+__CPROVER_decreases(dict_n - verif_i)
+"""
+
+
+def container_units(ctx, src, cases, arms):
+    u = Unit(ctx, 'json_containers')
+    u.raw('#include "stubs/C04_emit.h"\n')
+    for k in ('list', 'dict'):
+        u.function(src, HH, r'inline bool is_%s\(\) const' % k, new_header='static inline bool JSON_is_%s(const JSONV* self)' % k, rules=[ACCESS_RULES[0]])
+        u.function(src, CC, r'const JSON::%s_type& JSON::as_%s\(\) const' % (k, k), new_header='static inline size_t JSON_as_%s_n(const JSONV* self)' % k,
+                   rules=ACCESS_RULES, ret_zero='0')
+    HDR = 'void JSON_ser_%s(const JSONV* self, vstr* ret, uint32_t options, size_t indent_level, int escape_mode)'
+    D = SERIALIZE + ' :: '
+    # ---- list arm
+    emit(u, HDR % 'list', '{' + cases['5'] + '}', 'JSON::serialize case 5', CC, ret_zero='', desc=D + 'case 5', nloops=1, loops={1: LIST_LOOP},
+         rules=CONT_RULES + [Rule(r'\bfor \(const unique_ptr<JSON>& o : list\) \{', 'for (size_t verif_i = 0; verif_i < list_n; verif_i++) {', regex=True, count=1),
+                             Concat('verif_i')])
+    # ---- dict arm: the lambda add_key becomes a function of its captures, the arm calls it once per member
+    c6 = cases['6']
+    m6 = lex.mask(c6)
+    mo = re.search(r'\bauto add_key = \[&\]\(const string& key, const JSON& value\) -> void\s*', m6)
+    if not mo or m6[mo.end()] != '{':
+        raise ExtractionBreak('JSON::serialize case 6: lambda add_key(const string& key, const JSON& value) not found')
+    le = lex.match_close(m6, mo.end())
+    tail = _skip_ws(m6, le + 1)
+    if m6[tail] != ';':
+        raise ExtractionBreak('JSON::serialize case 6: malformed lambda')
+    lam = c6[mo.end():le + 1]
+    arm = c6[:mo.start()] + c6[tail + 1:]
+    CAP = 'vstr* ret, bool format, uint32_t options, size_t indent_level, int escape_mode'
+    emit(u, 'void JSON_ser_dict_add_key(%s, const vstr* key, size_t value)' % CAP, lam, 'JSON::serialize add_key', CC, ret_zero='', desc=D + 'case 6 :: lambda add_key',
+         rules=[Rule(r'\bret\.size\(\)', 'vstr_size(ret)', regex=True, count='+'),
+                Rule(r'\bstring escaped_key = JSON::escape_string\(key, escape_mode\);', 'C04_LOCAL_STRING(escaped_key); C04_escape_key(&escaped_key, key, escape_mode);', regex=True, count=1),
+                Concat('value')])
+    RANGE = Rule(r'\bfor \(const auto& o : (\w+)\) \{', r'for (size_t verif_i = 0; verif_i < \1_n; verif_i++) {', regex=True, count=3)
+    emit(u, HDR % 'dict', '{' + arm + '}', 'JSON::serialize case 6', CC, ret_zero='', desc=D + 'case 6', nloops=3,
+         loops={1: SORT_LOOP, 2: DICT_LOOP.replace('VERIF_N', 'sorted_n'), 3: DICT_LOOP.replace('VERIF_N', 'dict_n')},
+         rules=CONT_RULES + [RANGE,
+                             Rule(r'\bmap<string, JSON\*> sorted;', 'size_t sorted_n = 0;', regex=True, count=1),
+                             Rule(r'\bsorted\.emplace\(o\.first, o\.second\.get\(\)\);', 'sorted_n++;', regex=True, count=1),
+                             Rule(r'\badd_key\(o\.first, \*o\.second\);', 'JSON_ser_dict_add_key(ret, format, options, indent_level, escape_mode, C04_KEY_OF(self, verif_i), verif_i);', regex=True, count=2),
+                             Concat('verif_i')])
+    # ---- parser: skip_whitespace_and_comments, list branch, dict branch (the recursive JSON::parse is the child stub of the harness)
+    rr = reader_rules()
+    u.function(src, CC, r'static void skip_whitespace_and_comments\(StringReader& r, bool disable_extensions\)',
+               new_header='static void skip_whitespace_and_comments(StringReader* r, bool disable_extensions)', rules=rr + [Lower(READER_MAYTHROW)], ret_zero='', nloops=1)
+    MAY = READER_MAYTHROW + ['C04_parse_child', 'JSON_as_string', 'skip_whitespace_and_comments']
+    KEY = [Rule(r'\bkey\.is_(\w+)\(\)', r'JSON_is_\1(&key)', regex=True)]
+    emit(u, 'void JSON_parse_list(StringReader* r, bool disable_extensions, JSONV* ret)', arms[1][1], 'JSON::parse list branch', CC, ret_zero='', nloops=1,
+         desc=PARSE + ' :: list branch',
+         rules=rr + [Rule(r'\bret = JSON::list\(\);', 'JSONV_set_list(ret);', regex=True, count=1),
+                     Rule(r'\bret\.emplace_back\(JSON::parse\(r, disable_extensions\)\);', '{ JSONV verif_v; C04_parse_child(r, disable_extensions, &verif_v); JSONV_list_emplace_back(ret, &verif_v); }', regex=True, count=1),
+                     Lower(MAY)])
+    emit(u, 'void JSON_parse_dict(StringReader* r, bool disable_extensions, JSONV* ret)', arms[0][1], 'JSON::parse dict branch', CC, ret_zero='', nloops=1,
+         desc=PARSE + ' :: dict branch',
+         rules=rr + KEY + [Rule(r'\bret = JSON::dict\(\);', 'JSONV_set_dict(ret);', regex=True, count=1),
+                           Rule(r'\bJSON key = JSON::parse\(r, disable_extensions\);', 'JSONV key; C04_parse_child(r, disable_extensions, &key);', regex=True, count=1),
+                           Rule(r'\bret\.emplace\(move\(key\.as_string\(\)\), JSON::parse\(r, disable_extensions\)\);',
+                                '{ const vstr* verif_k = JSON_as_string(&key); JSONV verif_v; C04_parse_child(r, disable_extensions, &verif_v); JSONV_dict_emplace(ret, verif_k, &verif_v); }',
+                                regex=True, count=1),
+                           Lower(MAY)])
+    u.write()
+    return u
